@@ -29,7 +29,7 @@ enum OpKind {
 //   processIf: a = accept mask, c = predicate kind (0..6)
 //   copy/move/swap: a = other object
 enum { U_VARIANT = 0, U_FILL = 1, U_OBJECTS = 2 };
-enum { V_LIST = 0, V_LIST_SINGLE = 1, V_DISPATCHER = 2, V_QUEUE = 3, V_QUEUE_SINGLE = 4, V_COUNT = 5 };
+enum { V_LIST = 0, V_LIST_SINGLE = 1, V_DISPATCHER = 2, V_QUEUE = 3, V_QUEUE_SINGLE = 4, V_QUEUE_INCLUDE_EVENT = 5, V_COUNT = 6 };
 enum Shape { S_NONE = 0, S_INT = 1, S_SHORT = 2, S_DOUBLE = 3, S_CSTR = 4, S_STRING = 5, S_TR_INT = 6, S_BIG = 7, S_COUNT = 8 };
 enum { NKIND = 9, NPRED = 7 };
 
@@ -734,6 +734,185 @@ struct Interp : Sink
 	}
 };
 
+
+// ---------------------------------------------------------------- ArgumentPassingIncludeEvent: the event is the first argument itself
+// HeterEventQueue<std::string, {void(std::string), void(std::string, int), void(std::string, const Tr &)}>: dispatch and enqueue with
+// the key supplied as lvalue, temporary and moved local; every callback must receive the key and the other argument intact.
+struct PolInclude { typedef eventpp::ArgumentPassingIncludeEvent ArgumentPassingMode; };
+typedef eventpp::HeterTuple<void (std::string), void (std::string, int), void (std::string, const Tr &)> IncProtos;
+
+inline std::string incKey(int i) { return "event-key-" + std::to_string(i) + std::string(24 + (size_t)i * 5, 'k'); }
+
+struct IK0 : FBase { explicit IK0(int id) : FBase(id) {} void operator() (std::string s) const { rep(0, strHash(s), 0); } };
+struct IK1 : FBase { explicit IK1(int id) : FBase(id) {} void operator() (const std::string & s, int a) const { rep(1, strHash(s), a); } };
+struct IK2 : FBase { explicit IK2(int id) : FBase(id) {} void operator() (std::string s, const Tr & t) const { rep(2, strHash(s), trCanon(t)); } };
+
+struct IncInterp : Sink
+{
+	typedef eventpp::HeterEventQueue<std::string, IncProtos, PolInclude> Q;
+	const Plan & plan;
+	seq::Violation viol;
+	Q * q;
+	std::vector<int> lists[NKEY][3];
+	Q::Handle handles[MAXSLOT];
+	int slotKey[MAXSLOT], slotProto[MAXSLOT]; bool slotIn[MAXSLOT], slotUsed[MAXSLOT];
+	struct PEv { int key, proto, v; };
+	std::vector<PEv> pending;
+	std::vector<Call> trace;
+	uint64_t logHash;
+	std::vector<long> passedPerOp;
+
+	explicit IncInterp(const Plan & p) : plan(p), q(nullptr), logHash(kHashInit)
+	{
+		for(int i = 0; i < MAXSLOT; ++i) { slotKey[i] = 0; slotProto[i] = 0; slotIn[i] = false; slotUsed[i] = false; handles[i] = Q::Handle(); }
+	}
+	void called(int cb, int proto, long a, long b) override
+	{
+		++counters.callbackCalls;
+		Call c; c.cb = cb; c.proto = proto; c.a = a; c.b = b; trace.push_back(c);
+		logHash = hashMix(logHash, (uint64_t)cb * 2654435761u + (uint64_t)proto * 97 + (uint64_t)a * 7 + (uint64_t)b);
+	}
+	bool predicate(int, int, long) override { return true; }
+
+	void expect(std::vector<Call> & want, int key, int proto, int v) const
+	{
+		for(size_t i = 0; i < lists[key][proto].size(); ++i) { Call c; c.cb = lists[key][proto][i]; c.proto = proto; c.a = strHash(incKey(key)); c.b = proto == 0 ? 0 : v; want.push_back(c); }
+	}
+	bool compare(const std::vector<Call> & want, const char * what)
+	{
+		bool ok = want.size() == trace.size();
+		for(size_t i = 0; ok && i < want.size(); ++i) if(want[i].cb != trace[i].cb || want[i].proto != trace[i].proto || want[i].a != trace[i].a || want[i].b != trace[i].b) ok = false;
+		if(!ok) {
+			std::ostringstream o, g;
+			for(size_t i = 0; i < want.size(); ++i) o << (i ? " " : "") << "cb" << want[i].cb << "/p" << want[i].proto << "(" << want[i].a << "," << want[i].b << ")";
+			for(size_t i = 0; i < trace.size(); ++i) g << (i ? " " : "") << "cb" << trace[i].cb << "/p" << trace[i].proto << "(" << trace[i].a << "," << trace[i].b << ")";
+			viol.raise("wrong-callbacks", std::string(what) + " (event included in the arguments): the callbacks invoked were [" + g.str() + "] but the model expects [" + o.str() + "] - the event key and every argument must arrive intact");
+		}
+		return ok;
+	}
+	// form: 0 the key is an lvalue, 1 a temporary, 2 a moved local
+	void call(bool enqueue, int key, int proto, int v, int form)
+	{
+		std::string k = incKey(key);
+		FaultArm arm;
+		if(proto == 0) {
+			if(enqueue) { if(form == 0) q->enqueue(k); else if(form == 1) q->enqueue(incKey(key)); else q->enqueue(std::move(k)); }
+			else { if(form == 0) q->dispatch(k); else if(form == 1) q->dispatch(incKey(key)); else q->dispatch(std::move(k)); }
+		}
+		else if(proto == 1) {
+			if(enqueue) { if(form == 0) q->enqueue(k, v); else if(form == 1) q->enqueue(incKey(key), v + 0); else q->enqueue(std::move(k), v); }
+			else { if(form == 0) q->dispatch(k, v); else if(form == 1) q->dispatch(incKey(key), v + 0); else q->dispatch(std::move(k), v); }
+		}
+		else {
+			Tr t(3000, v);
+			if(enqueue) { if(form == 0) q->enqueue(k, t); else if(form == 1) q->enqueue(incKey(key), Tr(3000, v)); else q->enqueue(std::move(k), std::move(t)); }
+			else { if(form == 0) q->dispatch(k, t); else if(form == 1) q->dispatch(incKey(key), Tr(3000, v)); else q->dispatch(std::move(k), t); }
+		}
+	}
+	void doOp(const Op & op)
+	{
+		if(viol.set) return;
+		const int key = ((op.d & 3) % NKEY);
+		trace.clear();
+		logHash = hashMix(logHash, (uint64_t)op.k * 1000003 + (uint64_t)(uint32_t)op.a * 31 + (uint64_t)(uint32_t)op.c * 7 + (uint64_t)(uint32_t)op.d);
+		switch(op.k) {
+		case O_APPEND: case O_PREPEND: case O_INSERT: {
+			const int cb = op.a;
+			if(cb < 0 || cb >= MAXSLOT - 2 || slotUsed[cb]) return;
+			const int proto = ((op.c & 15) % 3);
+			{
+				FaultArm arm;
+				const std::string k = incKey(key);
+				if(proto == 0) { IK0 f(cb); handles[cb] = op.k == O_PREPEND ? q->prependListener(k, f) : q->appendListener(k, f); }
+				else if(proto == 1) { IK1 f(cb); handles[cb] = op.k == O_PREPEND ? q->prependListener(k, f) : q->appendListener(k, f); }
+				else { IK2 f(cb); handles[cb] = op.k == O_PREPEND ? q->prependListener(k, f) : q->appendListener(k, f); }
+			}
+			slotUsed[cb] = true; slotIn[cb] = true; slotKey[cb] = key; slotProto[cb] = proto;
+			if(op.k == O_PREPEND) lists[key][proto].insert(lists[key][proto].begin(), cb); else lists[key][proto].push_back(cb);
+			break;
+		}
+		case O_REMOVE: {
+			int slot = op.b;
+			if(slot < 0 || slot >= MAXSLOT || !slotUsed[slot]) return;
+			const bool expected = slotIn[slot];
+			bool got;
+			{ FaultArm arm; got = q->removeListener(incKey(slotKey[slot]), handles[slot]); }
+			if(expected) { std::vector<int> & l = lists[slotKey[slot]][slotProto[slot]]; l.erase(std::find(l.begin(), l.end(), slot)); slotIn[slot] = false; }
+			if(got != expected) viol.raise("remove-result", "removeListener returned " + std::string(got ? "true" : "false"));
+			break;
+		}
+		case O_INVOKE: {
+			const int proto = ((op.c % 3) + 3) % 3, form = ((op.c / 8) % 3 + 3) % 3, v = 100 + (op.a % 5000);
+			++counters.invocations;
+			std::vector<Call> want; expect(want, key, proto, v);
+			call(false, key, proto, v, form);
+			compare(want, "dispatch");
+			break;
+		}
+		case O_ENQ: {
+			const int proto = ((op.c % 3) + 3) % 3, form = ((op.c / 8) % 3 + 3) % 3, v = 100 + (op.a % 5000);
+			call(true, key, proto, v, form);
+			PEv e; e.key = key; e.proto = proto; e.v = v; pending.push_back(e);
+			++counters.enqueued;
+			break;
+		}
+		case O_PROCESS: case O_PROCESS_ONE: {
+			std::vector<PEv> batch;
+			if(op.k == O_PROCESS_ONE) { if(!pending.empty()) { batch.push_back(pending.front()); pending.erase(pending.begin()); } }
+			else batch.swap(pending);
+			std::vector<Call> want;
+			for(size_t i = 0; i < batch.size(); ++i) expect(want, batch[i].key, batch[i].proto, batch[i].v);
+			bool got;
+			{ FaultArm arm; got = op.k == O_PROCESS ? q->process() : q->processOne(); }
+			counters.dispatched += batch.size();
+			if(!compare(want, "process")) return;
+			if(got != !batch.empty()) viol.raise("process-result", "process/processOne returned the wrong result");
+			break;
+		}
+		case O_EMPTYQ: {
+			bool got;
+			{ FaultArm arm; got = q->emptyQueue(); }
+			if(got != pending.empty()) viol.raise("emptyQueue-result", "emptyQueue() disagrees with the model");
+			break;
+		}
+		default: break;
+		}
+	}
+	void execute(const std::vector<int> & faults)
+	{
+		FaultCtl & fc = faultCtl();
+		fc.countdown = 0; fc.passed = 0; fc.lastFired = -1;
+		ledger().reset();
+		q = new Q();
+		const OpList none;
+		const OpList & ops = plan.tasks.empty() ? none : plan.tasks[0];
+		passedPerOp.assign(ops.size(), 0);
+		for(size_t i = 0; i < ops.size() && !viol.set; ++i) {
+			long arm = 0;
+			for(size_t f = 0; f + 1 < faults.size(); f += 2) if(faults[f] == (int)i) arm = faults[f + 1];
+			fc.countdown = arm; fc.lastFired = -1;
+			const long before = fc.passed;
+			bool threw = false;
+			try { ++counters.ops; doOp(ops[i]); }
+			catch(const InjectedFault &) { threw = true; }
+			catch(const std::bad_alloc &) { threw = true; }
+			passedPerOp[i] = fc.passed - before;
+			const bool fired = fc.lastFired >= 0;
+			fc.countdown = 0;
+			if(threw && !fired) viol.raise("unexpected-exception", "an operation threw although no fault was injected");
+			if(fired && !threw) viol.raise("fault-swallowed", "a fault was injected but the call returned normally");
+			if(fired) ++counters.opsFailedByFault;
+			if(ledger().hasError()) viol.raise(ledger().errorClass, ledger().error);
+		}
+		if(viol.set) return;
+		doOp(Op(O_PROCESS));
+		if(viol.set) return;
+		delete q; q = nullptr;
+		for(int s2 = 0; s2 < MAXSLOT; ++s2) handles[s2] = Q::Handle();
+		if(ledger().liveTotal() != 0) viol.raise("leak", "tracked objects alive after destruction");
+	}
+};
+
 template <typename B>
 void runBox(const Plan & plan, RunOut & out)
 {
@@ -776,6 +955,45 @@ void runBox(const Plan & plan, RunOut & out)
 	out.caseHash = hashMix(ch, (uint64_t)plan.user(U_VARIANT));
 }
 
+inline void runInclude(const Plan & plan, RunOut & out)
+{
+	const bool faultMode = engine::mode == "c09";
+	struct One
+	{
+		static void run(const Plan & plan, const std::vector<int> & faults, RunOut & out, std::vector<long> * passed, uint64_t * lh)
+		{
+			IncInterp * in = new IncInterp(plan);
+			g_sink = in;
+			in->execute(faults);
+			if(in->viol.set) out.fail(in->viol.cls, in->viol.detail);
+			if(passed) *passed = in->passedPerOp;
+			if(lh) *lh = in->logHash;
+			g_sink = nullptr;
+			if(!out.violation) delete in;
+		}
+	};
+	std::vector<long> passed;
+	uint64_t lh = 0;
+	long subRuns = 1;
+	One::run(plan, plan.faults, out, &passed, &lh);
+	out.logHash = lh;
+	if(faultMode && plan.faults.empty() && !out.violation) {
+		for(size_t i = 0; i < passed.size() && !out.violation; ++i) for(long k = 1; k <= passed[i] && !out.violation; ++k) {
+			std::vector<int> f; f.push_back((int)i); f.push_back((int)k);
+			RunOut sub;
+			One::run(plan, f, sub, nullptr, nullptr);
+			++subRuns; ++counters.faultRuns;
+			if(sub.violation) { out.fail(sub.cls, sub.detail); out.faults = f; }
+		}
+	}
+	for(int kd = 0; kd < F_KINDS; ++kd) { counters.faultsByKind[kd] += (uint64_t)faultCtl().firedKind[kd]; counters.faultsInjected += (uint64_t)faultCtl().firedKind[kd]; faultCtl().firedKind[kd] = 0; }
+	out.subRuns = subRuns;
+	out.steps = (long)(plan.tasks.empty() ? 0 : plan.tasks[0].size());
+	uint64_t ch = kHashInit;
+	if(!plan.tasks.empty()) for(size_t i = 0; i < plan.tasks[0].size(); ++i) { const Op & op = plan.tasks[0][i]; ch = hashMix(ch, (uint64_t)op.k * 131 + (uint64_t)(uint32_t)op.a * 31 + (uint64_t)(uint32_t)op.b * 17 + (uint64_t)(uint32_t)op.c * 7 + (uint64_t)(uint32_t)op.d); }
+	out.caseHash = hashMix(ch, (uint64_t)plan.user(U_VARIANT));
+}
+
 #if SEQ_VARIANT == 0
 void runVariant0(const Plan & p, RunOut & o) { runBox<ListBox<PolDefault> >(p, o); }
 #elif SEQ_VARIANT == 1
@@ -786,6 +1004,8 @@ void runVariant2(const Plan & p, RunOut & o) { runBox<DispBox<PolDefault, false>
 void runVariant3(const Plan & p, RunOut & o) { runBox<DispBox<PolDefault, true> >(p, o); }
 #elif SEQ_VARIANT == 4
 void runVariant4(const Plan & p, RunOut & o) { runBox<DispBox<PolSingle, true> >(p, o); }
+#elif SEQ_VARIANT == 5
+void runVariant5(const Plan & p, RunOut & o) { runInclude(p, o); }
 #endif
 
 } // namespace sh
@@ -796,7 +1016,7 @@ namespace sh {
 Sink * g_sink = nullptr;
 Counters counters;
 void runVariant0(const Plan &, RunOut &); void runVariant1(const Plan &, RunOut &); void runVariant2(const Plan &, RunOut &);
-void runVariant3(const Plan &, RunOut &); void runVariant4(const Plan &, RunOut &);
+void runVariant3(const Plan &, RunOut &); void runVariant4(const Plan &, RunOut &); void runVariant5(const Plan &, RunOut &);
 }
 
 namespace engine {
@@ -815,7 +1035,8 @@ void generate(uint64_t seed, Plan & plan)
 	const int variant = (int)rng.below(V_COUNT);
 	plan.user(U_VARIANT) = variant;
 	const bool queue = variant >= V_QUEUE, keys = variant >= V_DISPATCHER;
-	const int nObj = pool ? 2 + (int)rng.below(2) : 1;
+	const bool include = variant == V_QUEUE_INCLUDE_EVENT;
+	const int nObj = (pool && !include) ? 2 + (int)rng.below(2) : 1;
 	plan.user(U_OBJECTS) = pool ? 1 + (int)rng.below((uint32_t)std::min(nObj, (int)MAXOBJ)) : 1;
 	plan.user(U_FILL) = 4;
 	plan.tasks.assign(1, OpList());
@@ -841,10 +1062,13 @@ void generate(uint64_t seed, Plan & plan)
 		else if(r < 34) ops.push_back(Op(O_REMOVE, 0, slot, 0, d));
 		else if(r < 37) ops.push_back(Op(O_EMPTY, 0, 0, 0, d));
 		else if(r < 41) ops.push_back(Op(O_FOREACH, (int)rng.below(NPROTO), 0, 0, d));
+		else if(include && r >= 88) { const int v = (int)rng.below(4000); const int shape = (int)rng.below(3) + 8 * (int)rng.below(3); ops.push_back(Op(rng.chance(1, 2) ? O_INVOKE : O_ENQ, v, 0, shape, d)); }
+		else if(include && (r < 58)) { const int v = (int)rng.below(4000); const int shape = (int)rng.below(3) + 8 * (int)rng.below(3); ops.push_back(Op(O_INVOKE, v, 0, shape, d)); }
 		else if(r < 58 || (!queue && r < 88)) { const int v = (int)rng.below(4000); const int shape = (int)rng.below(S_COUNT); ops.push_back(Op(O_INVOKE, v, 0, shape, d)); }
 		else if(r < 88) {
 			const uint32_t q = rng.below(100);
-			if(q < 50) { const int shape = (int)rng.below(S_COUNT); ops.push_back(Op(O_ENQ, 0, 0, shape, d)); }
+			if(q < 50 && include) { const int v = (int)rng.below(4000); const int shape = (int)rng.below(3) + 8 * (int)rng.below(3); ops.push_back(Op(O_ENQ, v, 0, shape, d)); }
+			else if(q < 50) { const int shape = (int)rng.below(S_COUNT); ops.push_back(Op(O_ENQ, 0, 0, shape, d)); }
 			else if(q < 62) ops.push_back(Op(O_PROCESS, 0, 0, 0, d));
 			else if(q < 74) ops.push_back(Op(O_PROCESS_ONE, 0, 0, 0, d));
 			else if(q < 92) { const int mask = (int)rng.below(256); const int pk = (int)rng.below(rng.chance(1, 8) ? NPRED : NPRED - 1); ops.push_back(Op(O_PROCESS_IF, mask, 0, pk, d)); }
@@ -873,7 +1097,7 @@ void execute(const Plan & plan, RunOut & out)
 	const int v = plan.user(sh::U_VARIANT);
 	switch(v) {
 	case 0: sh::runVariant0(plan, out); break; case 1: sh::runVariant1(plan, out); break; case 2: sh::runVariant2(plan, out); break;
-	case 3: sh::runVariant3(plan, out); break; default: sh::runVariant4(plan, out); break;
+	case 3: sh::runVariant3(plan, out); break; case 4: sh::runVariant4(plan, out); break; default: sh::runVariant5(plan, out); break;
 	}
 	++sh::counters.plans;
 	if(v >= 0 && v < sh::V_COUNT) ++sh::counters.perVariant[v];
@@ -888,7 +1112,7 @@ void execute(const Plan & plan, RunOut & out)
 
 std::string describe(const Plan & plan)
 {
-	static const char * vn[] = { "HeterCallbackList", "HeterCallbackList/SingleThreading", "HeterEventDispatcher", "HeterEventQueue", "HeterEventQueue/SingleThreading" };
+	static const char * vn[] = { "HeterCallbackList", "HeterCallbackList/SingleThreading", "HeterEventDispatcher", "HeterEventQueue", "HeterEventQueue/SingleThreading", "HeterEventQueue<std::string>/ArgumentPassingIncludeEvent" };
 	static const char * names[] = { "?", "append", "prepend", "insert", "remove", "empty", "forEach", "invoke", "enqueue", "process", "processOne", "processIf", "clearEvents", "emptyQueue",
 		"copyConstruct", "copyAssign", "moveConstruct", "moveAssign", "swap", "destroy", "create" };
 	static const char * shapes[] = { "()", "(int)", "(short)", "(double)", "(const char*)", "(string)", "(Tr,int)", "(Big)" };
